@@ -142,6 +142,41 @@ package ociauth
 //@   modifies nothing
 //@   ensures result != nil
 
+// Iter's order: every element handed to the consumer is strictly greater (in
+// the Compare order) than the one handed over before it - so the sequence is
+// ascending and free of duplicates. `others` is the not yet delivered rest of
+// the unknown elements; the helper closure (executed in place) delivers those
+// that come before the element it is given.
+//@ pure func atMostRepo(l ResourceScope, repo string) bool =
+//@   l.ResourceType < TypeRepository || (l.ResourceType == TypeRepository && l.Resource <= repo)
+//@ func (Scope).Iter$1
+//@   strings atom
+//@   bytes bv
+//@   requires wf(s) && yield0 != nil
+//@   yield-requires(x) yielded() > 0 ==> lessRS(yieldedAt(yielded() - 1), x)
+//@   loop 0 invariant 0 - 1 <= rangeindex && rangeindex < len(s.repositories) && !stopped()
+//@   loop 0 invariant forall a, b int :: 0 <= a && a < b && b < len(others) ==> lessRS(others[a], others[b])
+//@   loop 0 invariant forall a int :: 0 <= a && a < len(others) ==> !others[a].isKnown()
+//@   loop 0 invariant yielded() > 0 && len(others) > 0 ==> lessRS(yieldedAt(yielded() - 1), others[0])
+//@   loop 0 invariant yielded() > 0 ==> rangeindex >= 0 && atMostRepo(yieldedAt(yielded() - 1), s.repositories[rangeindex])
+//@   loop 1 invariant !stopped() && repo != "" && 0 <= i && i < len(s.repositories) && repo == s.repositories[i]
+//@   loop 1 invariant forall a, b int :: 0 <= a && a < b && b < len(others) ==> lessRS(others[a], others[b])
+//@   loop 1 invariant forall a int :: 0 <= a && a < len(others) ==> !others[a].isKnown()
+//@   loop 1 invariant yielded() > 0 && len(others) > 0 ==> lessRS(yieldedAt(yielded() - 1), others[0])
+//@   loop 1 invariant yielded() > 0 ==> yieldedAt(yielded() - 1).ResourceType < TypeRepository ||
+//@     (yieldedAt(yielded() - 1).ResourceType == TypeRepository && (yieldedAt(yielded() - 1).Resource < repo ||
+//@       (yieldedAt(yielded() - 1).Resource == repo && (k >= 3 || (k == 2 && yieldedAt(yielded() - 1).Action < ActionPush)))))
+//@   loop 2 invariant 0 - 1 <= rangeindex#1 && rangeindex#1 < len(others) && !stopped()
+//@   loop 2 invariant forall a, b int :: 0 <= a && a < b && b < len(others) ==> lessRS(others[a], others[b])
+//@   loop 2 invariant yielded() > 0 && rangeindex#1 + 1 < len(others) ==> lessRS(yieldedAt(yielded() - 1), others[rangeindex#1 + 1])
+//@ func (Scope).Iter$1$1
+//@   inline
+//@   loop 0 invariant !stopped()
+//@   loop 0 invariant forall a, b int :: 0 <= a && a < b && b < len(others) ==> lessRS(others[a], others[b])
+//@   loop 0 invariant forall a int :: 0 <= a && a < len(others) ==> !others[a].isKnown()
+//@   loop 0 invariant yielded() > 0 && len(others) > 0 ==> lessRS(yieldedAt(yielded() - 1), others[0])
+//@   loop 0 invariant yielded() > 0 ==> lessRS(yieldedAt(yielded() - 1), scope)
+
 // ---------------------------------------------------------------------------
 // C19: credential lookup from a Docker-style config file.
 //
